@@ -129,6 +129,32 @@ ReleaseStart(id) ==
     /\ live' = { t \in live : t.id /= id }
     /\ UNCHANGED <<mgrs, freed>> /\ UNCHANGED lfvars
 
+(* the code holding the tokens ids panicked and the stack is being unwound (the panic is caught by  *)
+(* catch_unwind, or ends a thread that is joined): the tokens that were in scope are dropped by    *)
+(* the unwinding - their release starts, they are no longer live                                   *)
+Unwind(ids) ==
+    /\ \A i \in 1..Len(ids) : \E t \in live : t.id = ids[i]
+    /\ live' = { t \in live : \A i \in 1..Len(ids) : t.id /= ids[i] }
+    /\ UNCHANGED <<mgrs, freed>> /\ UNCHANGED lfvars
+
+(* a writer request made at a moment the caller knows to be quiescent was refused: only justified   *)
+(* by a level without writers or by a writer token that is live in the one-writer level             *)
+AcquireRefusedAtQuiescence(m, kind) ==
+    /\ m \in DOMAIN mgrs
+    /\ kind = "W"
+    /\ \/ mgrs[m].level = "NoWriteReadOnly"
+       \/ (mgrs[m].level = "OneWriteMultiRead" /\ LiveOf(m, "W") /= {})
+    /\ UNCHANGED tokvars /\ UNCHANGED lfvars
+
+(* quiescence: every token of m was released and one more token came and went since: the counters   *)
+(* are zero and the threshold has caught up with the current version                                *)
+ObserveQuiescent(m, min, cur, ar, aw) ==
+    /\ m \in DOMAIN mgrs /\ mgrs[m].alive
+    /\ LiveOf(m, "R") = {} /\ LiveOf(m, "W") = {}
+    /\ ar = 0 /\ aw = 0
+    /\ min = cur
+    /\ UNCHANGED tokvars /\ UNCHANGED lfvars
+
 (* the release callback ran against the manager at address addr (hook event vm.release):  *)
 (* the manager must still exist (NoDeadManagerTouch) and must be the manager the token was  *)
 (* obtained from (TokenBelongs): expectedMgr is the manager the caller asked for the token. *)
